@@ -42,7 +42,21 @@ def analyse(fn):
                 st = step(el, st, False)
         return st
 
+    # the pointer variable that receives the entry: new_reloc_entry(Out(re), ..)
+    out_vars = set()
+    for i, x in fn.calls(lambda x: x.get("cn") == "new_reloc_entry"):
+        for j in fn.walk(x["args"][0]):
+            y = fn.e(j)
+            if y["k"] == "ref" and y.get("dk") == "local":
+                out_vars.add(y["did"])
+
     def edge(b, si, succ, st):
+        if b in atoms and any(f[0] == "live" for f in st):
+            atom, pol = atoms[b]
+            a = fn.e(atom)
+            if a and a["k"] == "ref" and a.get("did") in out_vars and ((si == 0) == pol) is False:
+                # `if (re)` is false: no entry was created on this path
+                st = frozenset(f for f in st if f[0] != "live")
         pend = [f for f in st if f[0] == "pending"]
         if pend and b in atoms:
             atom, pol = atoms[b]
